@@ -185,11 +185,33 @@ def kAuDens : P String := do
   pure (sf (aroundUniformDensity mc dir sv))
 
 def kFDens : P String := do
-  let ce ← v3; let r ← fl; let p ← v3; let n ← v3; let sv ← v3; done
-  if ce.dist p < r then pure (sf (lambertDensity n sv))
-  else
-    let fi := focusInfo ce r p
-    pure (sf (aroundUniformDensity fi.1 fi.2 sv))
+  let ce ← v3; let r ← fl; let p ← v3; let fo ← bool; let n ← v3; let sv ← v3; done
+  pure (sf (sphereFocusDensity ce r p fo (lambertDensity n sv) sv))
+
+def kFSamp : P String := do
+  let ce ← v3; let r ← fl; let p ← v3; let fo ← bool; let n ← v3; let u ← fl
+  let cl ← fl; let sl ← fl; let c ← fl; let s ← fl; done
+  pure (ov (sphereFocusSample ce r p fo (lambertSample n u c s) cl sl c s))
+
+def sameV (a b : V3 Float) : Bool := a.x == b.x && a.y == b.y && a.z == b.z
+
+def kPFDens : P String := do
+  let tg ← v3; let p ← v3; let fo ← bool; let alpha ← fl; let n ← v3; let sv ← v3; let p2 ← fl; done
+  pure (sf (phongFocusDensity tg p (sameV tg p) fo alpha (lambertDensity n sv) sv p2))
+
+def kPFSamp : P String := do
+  let tg ← v3; let p ← v3; let fo ← bool; let n ← v3
+  let uL ← fl; let cL ← fl; let sL ← fl; let cosLat ← fl; let cD ← fl; let sD ← fl; done
+  pure (ov (phongFocusSample tg p (sameV tg p) fo (lambertSample n uL cL sL) cosLat cD sD))
+
+def kHgBsdf : P String := do
+  let k ← consts; let g ← fl; let sc ← v3; let ign ← bool; let n ← v3; let sv ← v3; let _dest ← v3; let p ← fl; done
+  let g' := hgNumericalG k g
+  pure (ov (hgBSDF k sc ign n sv (hgCosDensity g' p)))
+
+def kJBsdf : P String := do
+  let n ← nat; let bs ← many n v3; done
+  pure (ov (joinBSDF bs))
 
 def kSphere : P String := do
   let lo ← fl; let hi ← fl; let k ← consts; let ce ← v3; let r ← fl; let em ← v3
@@ -231,7 +253,8 @@ def kinds : List (String × P String) := [
   ("lbsdf", kLBsdf), ("adsamp", kAdSamp), ("addens", kAdDens), ("psamp", kPSamp), ("pdens", kPDens),
   ("pbsdf", kPBsdf), ("maxcos", kMaxCos), ("hgsamp", kHgSamp), ("hgnum", kHgNum), ("hgdens", kHgDens),
   ("jsel", kJSel), ("jselQ", kJSelQ), ("jdens", kJDens), ("jdensQ", kJDensQ),
-  ("finfo", kFInfo), ("ausamp", kAuSamp), ("audens", kAuDens), ("fdens", kFDens),
+  ("finfo", kFInfo), ("ausamp", kAuSamp), ("audens", kAuDens), ("fdens", kFDens), ("fsamp", kFSamp),
+  ("pfdens", kPFDens), ("pfsamp", kPFSamp), ("hgbsdf", kHgBsdf), ("jbsdf", kJBsdf),
   ("sphere", kSphere), ("cyl", kCyl), ("mesh", kMesh), ("join", kJoin), ("selgrid", kSelGrid)]
 
 def handleAll (ws : List String) : Option String :=
